@@ -1,3 +1,4 @@
+mod corpus;
 mod explore;
 mod kf;
 mod lit;
